@@ -260,8 +260,9 @@ def run_case(case):
 def has_trailing_dot_bar(text):
     import re
 
-    body = text
-    # a '.|' that does not start a mixture specifier at the end of a molecule: number ending in '.' before '|'
+    # a number ending in '.' directly before '|' INSIDE a descriptor or distribution; a complete mixture specifier '.|1234.|' is not meant
+    # (the library finds its leading '.|' first and reads it correctly)
+    body = re.sub(r"\.\|\s*[0-9.eE+-]+\s*%?\s*\|", " ", text)
     return bool(re.search(r"\d\.\s*\|", body))
 
 
